@@ -24,3 +24,31 @@ use block_builder::BlockBuilder;
 
 mod filter_block_builder;
 use filter_block_builder::FilterBlockBuilder;
+
+/// See [`crate::verif::filter_block_roundtrip`].
+#[cfg(feature = "verif_hooks")]
+pub(crate) fn verif_filter_block_roundtrip(
+    filter_policy: std::sync::Arc<dyn crate::FilterPolicy>,
+    blocks: &[(u64, Vec<Vec<u8>>)],
+) -> Result<Vec<Vec<bool>>, String> {
+    let mut builder = FilterBlockBuilder::new(std::sync::Arc::clone(&filter_policy));
+    for (index, (_, keys)) in blocks.iter().enumerate() {
+        for key in keys {
+            builder.add_key(key.clone());
+        }
+        if let Some((next_offset, _)) = blocks.get(index + 1) {
+            builder.notify_new_data_block(*next_offset as usize);
+        }
+    }
+    let contents = builder.finalize();
+    let reader = filter_block::FilterBlockReader::new(filter_policy, contents)
+        .map_err(|e| format!("{e:?}"))?;
+    Ok(blocks
+        .iter()
+        .map(|(offset, keys)| {
+            keys.iter()
+                .map(|key| reader.key_may_match(*offset, key))
+                .collect()
+        })
+        .collect())
+}
